@@ -184,6 +184,12 @@ def gen_panel(rng, tier):
             return
 
 
+def _c03(name):
+    from . import c03
+
+    return getattr(c03, name)
+
+
 def _c20(name):
     from . import c20
 
@@ -228,6 +234,18 @@ CHECK = Check(
             describe=lambda c, o: "completed" if isinstance(o, dict) and o.get("completed") else "exhausted",
             variants=variants_seq,
             rule="seeded random sequences of 1-10 requests over 1-3 reference samples with shuffled candidate orders, issued to the real _find_random_sample with one shared registry; non-trivial = more than one request",
+        ),
+        Section(
+            name="output_vcf_no_replacement",
+            theorems=["C14.disjoint_after_any_run", "C14.grant_or_exhausted"],
+            gen=lambda rng, tier: _c03("gen")(rng, tier, True),
+            impl=lambda c: _c03("impl_wrap")(c),
+            oracle=lambda c, o: _c03("oracle")(c, o),
+            setup=lambda: _c03("setup")(),
+            teardown=lambda x: _c03("teardown")(x),
+            nontrivial=lambda c, o: C.jdump(c),
+            describe=lambda c, o: "refused-exhausted" if isinstance(o, dict) and "error" in o else "completed",
+            rule="whole output_vcf --no_replacement runs over C03's identifiable panels (panels with exactly, and more than, the needed samples per population; blocks nested in, overlapping, abutting and equal to blocks of other haplotypes on a grid of ends): from the output genotypes every (reference haplotype, variant) pair is used at most once, or the run ends in the 'No available sample' error",
         ),
         Section(
             name="validate_panel_size",
